@@ -164,7 +164,7 @@ Section T.
     crash_guard x start kk t = true ->
     let img := image f0 (cs_writes x start) kk t in
     refused_untouched hdrdec k o nilroots roots img \/
-    resumed_as_after hdrdec k o nilroots roots start (cs_puts x) (cs_done x start kk) img.
+    resumed_exactly hdrdec k o nilroots roots (abs_puts [] (concat (map fst (cs_pre x)))) (cs_puts x) (cs_done x start kk) img.
   Proof.
     intros Hst Hg. cbv zeta.
     destruct (cs_start_inv f0 start acked_pre Hst) as (HI & Hdev & Hb & Hfresh & Hres).
@@ -189,9 +189,7 @@ Section T.
         rewrite HW.
         destruct (resume_phase_images hdrdec k o nilroots roots Hpar Ev f0 start st0 kk t (sess_writes o nilroots roots st0 (cs_puts x) ++ F) (Hr2 eq_refl)
                     (inv_cids _ _ _ _ _ _ HI) (inv_fits _ _ _ _ _ _ HI) E2) as (Hne & [(log & Hr)|Hr]).
-        * right.
-          apply (resumed_outcome hdrdec k o nilroots roots Hpar start st0 (cs_puts x) 0 0 _ log HI Hb);
-            [unfold block; lia|].
+        * right. exists log, 0%nat. split; [unfold block; lia|].
           rewrite (reopen_nonempty hdrdec k o nilroots roots _ Hne). cbn [firstn].
           unfold ResumeInv.abs_puts at 1. cbn [fold_left]. exact Hr.
         * left. exists EOther. eexists.
@@ -214,8 +212,8 @@ Section T.
   Theorem complete_thm f0 start acked_pre kk t :
     cs_start hdrdec x = Some (f0, start, acked_pre) ->
     (loglen (cs_end x start) <= kk)%nat ->
-    resumed_as_after hdrdec k o nilroots roots start (cs_puts x) (length (cs_puts x))
-                     (image f0 (cs_writes x start) kk t).
+    resumed_exactly hdrdec k o nilroots roots (abs_puts [] (concat (map fst (cs_pre x)))) (cs_puts x) (length (cs_puts x))
+                    (image f0 (cs_writes x start) kk t).
   Proof.
     intros Hst Hk.
     destruct (cs_start_inv f0 start acked_pre Hst) as (HI & Hdev & Hb & _).
@@ -236,8 +234,7 @@ Section T.
     destruct Hfile as (c & ->).
     destruct (reopen_after_cut hdrdec k o nilroots roots Hpar c _ (inv_cids _ _ _ _ _ _ HIp) (inv_fits _ _ _ _ _ _ HIp))
       as (log & Hre).
-    apply (resumed_outcome hdrdec k o nilroots roots Hpar start st0 (cs_puts x) _ (length (cs_puts x)) _ log HI Hb);
-      [unfold block; lia|rewrite firstn_all; exact Hre].
+    exists log, (length (cs_puts x)). split; [unfold block; lia|rewrite firstn_all; exact Hre].
   Qed.
 End T.
 
@@ -269,8 +266,11 @@ Proof.
   assert (Hpar : params_ok hdrdec o (cs_nil x) (cs_roots x)) by (constructor; assumption).
   assert (Hb : budget o (cs_nil x) (cs_roots x) [] (concat (map fst (cs_pre x)) ++ cs_puts x)).
   { unfold budget. change (enc_sections []) with (@nil byte). rewrite blen_nil. unfold hsz, ResumeInv.hdr. fold hdr. lia. }
-  exact (partial_thm hdrdec (cs_kind x) o (cs_nil x) (cs_roots x) Hpar H6 x eq_refl eq_refl eq_refl eq_refl Hb
-                     f0 start acked_pre k t Hst Hg).
+  destruct (cs_start_inv hdrdec (cs_kind x) o (cs_nil x) (cs_roots x) Hpar H6 x eq_refl eq_refl eq_refl eq_refl Hb
+              f0 start acked_pre Hst) as (HI & _ & Hb0 & _).
+  destruct (partial_thm hdrdec (cs_kind x) o (cs_nil x) (cs_roots x) Hpar H6 x eq_refl eq_refl eq_refl eq_refl Hb
+                        f0 start acked_pre k t Hst Hg) as [Hl|Hr]; [left; exact Hl|right].
+  exact (resumed_exactly_weaken hdrdec (cs_kind x) o (cs_nil x) (cs_roots x) Hpar start _ _ _ _ HI Hb0 Hr).
 Qed.
 
 Theorem C06_header_complete_thm :
@@ -298,6 +298,9 @@ Proof.
   assert (Hpar : params_ok hdrdec o (cs_nil x) (cs_roots x)) by (constructor; assumption).
   assert (Hb : budget o (cs_nil x) (cs_roots x) [] (concat (map fst (cs_pre x)) ++ cs_puts x)).
   { unfold budget. change (enc_sections []) with (@nil byte). rewrite blen_nil. unfold hsz, ResumeInv.hdr. fold hdr. lia. }
-  exact (complete_thm hdrdec (cs_kind x) o (cs_nil x) (cs_roots x) Hpar H6 x eq_refl eq_refl eq_refl eq_refl Hb
-                      f0 start acked_pre k t Hst Hk).
+  destruct (cs_start_inv hdrdec (cs_kind x) o (cs_nil x) (cs_roots x) Hpar H6 x eq_refl eq_refl eq_refl eq_refl Hb
+              f0 start acked_pre Hst) as (HI & _ & Hb0 & _).
+  exact (resumed_exactly_weaken hdrdec (cs_kind x) o (cs_nil x) (cs_roots x) Hpar start _ _ _ _ HI Hb0
+           (complete_thm hdrdec (cs_kind x) o (cs_nil x) (cs_roots x) Hpar H6 x eq_refl eq_refl eq_refl eq_refl Hb
+                         f0 start acked_pre k t Hst Hk)).
 Qed.
